@@ -260,12 +260,20 @@ func cmdCheck(args []string) {
 			v.sweepMode = con == nil
 			u := v.verifyFunc(fn, con)
 			v.sweepMode = false
+			// functions that mutate component state (on <component>) keep all their
+			// obligations: panic freedom elsewhere rests on the invariants they preserve
 			if con != nil && cfg.SafetyOnly && *tier != "thorough" {
 				var keep []*Obligation
 				for _, o := range u.Obls {
 					switch o.Kind {
 					case "nopanic", "nohang", "pre", "fieldinv", "mapinv", "chaninv", "typestate", "captures", "contract-binding":
 						keep = append(keep, o)
+					case "ensures":
+						// state-mutating actions (on <component>): panic freedom elsewhere
+						// rests on the invariants they re-establish (clauses labelled inv*)
+						if con.On != "" && strings.Contains(o.Name, "#ensures[inv") {
+							keep = append(keep, o)
+						}
 					}
 				}
 				u.Obls = keep
